@@ -56,7 +56,7 @@ MEMBER_OPS = {
     "RNGSeedGenerator::": ["rng"],
     "PlannerSolutionSet::": ["solutions", "solmix", "solrace"],
     "AllocatedSpaces::": ["spaces"],
-    "DefaultOutputHandler::": ["logging"],
+    "DefaultOutputHandler::": ["logging", "logpark"],
     "CForest::": ["cfrace"],
     "CForestStateSampler::": ["cfrace"],
 }
@@ -239,6 +239,9 @@ def judge_surface(op_line, out_line):
                         "(distinct=%s): a stream position was handed out twice or skipped" % (d["created"], d["distinct"]))
             if d["distinct"] != d["ref_distinct"]:
                 return "distinct seeds %s != %s in the reference window" % (d["distinct"], d["ref_distinct"])
+            if d.get("equal_columns", "0") != "0":
+                return ("the k-th generator created by every thread received the same seed for %s values of k: the seed stream is "
+                        "per thread, not one sequence shared by all threads" % d["equal_columns"])
         elif op == "spaces":
             if d["distinct_names"] != d["created"]:
                 return "%s spaces created but only %s distinct automatic names" % (d["created"], d["distinct_names"])
@@ -293,6 +296,20 @@ def judge_surface(op_line, out_line):
                 return "%s messages sent, handlers received %s" % (d["sent"], d["received"])
             if d["getter_null"] != "0":
                 return "getOutputHandler() returned null %s times while a handler was always installed" % d["getter_null"]
+        elif op == "logpark":
+            if d["overlap"] != "0":
+                return ("OutputHandler::log() was entered by a second thread while another one was inside it (%s times in %s rounds): "
+                        "handlers are not serialised by the console" % (d["overlap"], d["rounds"]))
+            for key, fn in (("stale_use", "useOutputHandler"), ("stale_none", "noOutputHandler"), ("stale_restore", "restorePreviousOutputHandler")):
+                if d[key] != "0":
+                    return ("msg::%s() returned while a message was still being written by the handler it replaced (%s of %s rounds)"
+                            % (fn, d[key], d["rounds"]))
+            if d["order_bad"] != "0":
+                return "a handler received the messages of one thread out of program order (%s times)" % d["order_bad"]
+            if d["counts_ok"] != "1":
+                return "messages lost or duplicated: sent=%s received=%s" % (d["sent"], d["received"])
+            if int(d["parked_missing"]) >= 4 * int(d["rounds"]):
+                return "no thread ever parked inside the handler: scenario did not run"
         elif op == "terminate":
             if a[2] == "2" and d["handshake"] != "1":
                 return "the periodic evaluation thread never entered the predicate: scenario did not run"
@@ -875,7 +892,7 @@ def surface_ops(rng, tier, tsan):
         ops += ["force %d %d 10" % (T(2, 8), 100 if not big else 400)]
         ops += ["counters %d %d %d" % (T(2, 8), 150 if not big else 500, rng.below(1000))]
         ops += ["gnat %d %d %d %d %d" % (T(2, 8), 600, 40 if not big else 120, rng.range(1, 8), rng.below(1000))]
-        ops += ["rng %d %d" % (T(2, 12), 60)]
+        ops += ["rng %d %d" % (T(2, 12), 60), "rng %d %d 1" % (T(2, 8), 40)]
         ops += ["spaces %d %d 0" % (T(2, 10), 40), "spaces %d %d 1" % (T(2, 6), 40)]
         ops += ["gnat %d %d %d %d %d %d 1" % (T(4, 8), rng.choice([200, 400]), 40, rng.range(1, 6), rng.below(1000), 2)]
         ops += ["solutions %d %d %d" % (T(2, 8), rng.range(1, 3), 40)]
@@ -884,6 +901,7 @@ def surface_ops(rng, tier, tsan):
         ops += ["cfrace %d %d" % (2 * rng.range(1, 3), 300)]
         ops += ["cfsamplers %d %d %d %d" % (rng.range(2, 3), 20000, rng.below(2), 1 if tsan else rng.below(2))]
         ops += ["logging %d %d" % (T(2, 8), 200)]
+        ops += ["logpark 3"]
         ops += ["terminate %d 0" % T(2, 8), "terminate %d 1" % T(2, 6), "terminate %d 2" % T(2, 6)]
     else:
         reps = 2 if not big else 5
@@ -894,7 +912,7 @@ def surface_ops(rng, tier, tsan):
             # many internal nodes (degree 4, leaves of 8), many threads, every query many times
             ops += ["gnat %d %d %d %d %d %d 1" % (T(8, 16), rng.choice([200, 600, 2000]), 120, rng.range(1, 10), rng.below(1000),
                                                   6 if not big else 20)]
-            ops += ["rng %d %d" % (T(), 400)]
+            ops += ["rng %d %d" % (T(), 400), "rng %d %d 1" % (T(), 200)]
             ops += ["spaces %d %d 0" % (T(), 200), "spaces %d %d 1" % (T(), 100)]
             ops += ["solutions %d %d %d" % (T(2, 12), rng.range(1, 4), 150)]
             ops += ["solmix %d %d %d %d %d" % (T(2, 10), rng.range(1, 3), rng.range(1, 3), 300, rng.below(1000))]
@@ -902,6 +920,7 @@ def surface_ops(rng, tier, tsan):
             ops += ["cfrace %d %d" % (2 * rng.range(1, 4), rng.choice([200, 2000]))]
             ops += ["cfsamplers %d %d %d %d" % (rng.range(2, 4), 30000, rng.below(2), rng.below(2))]
             ops += ["logging %d %d" % (T(), 1500)]
+            ops += ["logpark %d" % (3 if not big else 10)]
             ops += ["terminate %d 0" % T(), "terminate %d 1" % T(2, 8), "terminate %d 2" % T(2, 8)]
     return ops
 
@@ -1142,7 +1161,7 @@ def run(ck):
         flavour = "tsan" if res["tsan"] else "plain"
         ck.traces_validated += 1
         ck.count("runs:%s:%s" % (flavour, op if op != "planner" else "planner:" + op_line.split()[1]))
-        threads = int(op_line.split()[2]) if op == "planner" else (2 if op in ("cfrace", "solrace") else int(op_line.split()[1]))
+        threads = int(op_line.split()[2]) if op == "planner" else (2 if op in ("cfrace", "solrace", "logpark") else int(op_line.split()[1]))
         ck.count("threads:%d" % threads)
         if op == "planner":
             what, info = judge_path(op_line, res["line"])
